@@ -47,6 +47,9 @@ func Shrink(choices []uint32, test func([]uint32) (bool, []uint32), maxRuns int,
 		// zero blocks
 		for size := len(cur) / 2; size >= 1 && !exhausted(); size /= 2 {
 			for i := 0; i+size <= len(cur) && !exhausted(); i += size {
+				if i+size > len(cur) {
+					break
+				}
 				allz := true
 				for _, v := range cur[i : i+size] {
 					if v != 0 {
@@ -67,16 +70,19 @@ func Shrink(choices []uint32, test func([]uint32) (bool, []uint32), maxRuns int,
 		}
 		// lower single values
 		for i := 0; i < len(cur) && !exhausted(); i++ {
-			for cur[i] > 0 && !exhausted() {
+			for i < len(cur) && cur[i] > 0 && !exhausted() {
 				cand := append([]uint32(nil), cur...)
 				cand[i] = cur[i] / 2
 				if try(cand) {
 					progress = true
 					continue
 				}
+				if i >= len(cur) {
+					break
+				}
 				cand = append([]uint32(nil), cur...)
 				cand[i] = cur[i] - 1
-				if i < len(cur) && try(cand) {
+				if try(cand) {
 					progress = true
 					continue
 				}
